@@ -69,6 +69,8 @@ type plainServer struct {
 	inflight    int
 	maxInflight int
 	oddShape    string
+	reject      map[string]int // requests a real DC would answer with LIMIT_INVALID (served anyway)
+	rejectFirst []string
 	cdnCalls    int
 	otherCalls  int
 }
@@ -82,6 +84,15 @@ func (s *plainServer) UploadGetFile(ctx context.Context, req *tg.UploadGetFileRe
 	}
 	if s.oddShape == "" && (req.Limit != s.part || req.Offset%int64(s.part) != 0 || !req.Precise || req.CDNSupported != s.wantCDN) {
 		s.oddShape = fmt.Sprintf("offset=%d limit=%d precise=%v cdn_supported=%v (part %d)", req.Offset, req.Limit, req.Precise, req.CDNSupported, s.part)
+	}
+	if why := wouldReject(req.Offset, req.Limit); why != "" {
+		if s.reject == nil {
+			s.reject = map[string]int{}
+		}
+		if s.reject[why] == 0 {
+			s.rejectFirst = append(s.rejectFirst, fmt.Sprintf("%s: offset=%d limit=%d", why, req.Offset, req.Limit))
+		}
+		s.reject[why]++
 	}
 	var fault *faultKind
 	if q := s.faults[req.Offset]; len(q) > 0 {
@@ -151,6 +162,7 @@ type c33Case struct {
 	Mode      string   `json:"mode"`
 	Arm       string   `json:"arm"`
 	Part      int      `json:"part_size"`
+	PartClass string   `json:"part_class"`
 	Threads   int      `json:"threads"`
 	Size      int      `json:"file_size"`
 	SizeClass string   `json:"size_class"`
@@ -163,12 +175,64 @@ type c33Case struct {
 
 // part sizes: small ones dominate (the volume of bytes is what costs under the
 // race detector, the number of parts is what exercises the scheduler).
-var c33Parts = []int{4096, 4096, 4096, 8192, 8192, 8192, 12288, 16384, 16384, 20480, 32768, 32768, 65536, 65536, 102400, 131072, 262144, 524288, 1048576}
+//
+// WithPartSize validates nothing ("must be divisible by 4KB" is only a comment),
+// so every class of value the API accepts is exercised:
+var (
+	c33PartsDiv    = []int{4096, 4096, 4096, 8192, 8192, 16384, 16384, 32768, 65536, 131072, 262144, 524288} // divide 1 MiB
+	c33PartsNonDiv = []int{12288, 20480, 36864, 102400, 163840, 393216, 786432, 1044480}                      // 4 KiB multiples that do not
+	c33PartsOdd    = []int{1000, 5120, 7777, 333333}                                                         // not a 4 KiB multiple
+	c33PartsOver   = []int{1572864, 2097152}                                                                 // above the 1 MiB maximum
+)
+
+func partClass(p int) string {
+	switch {
+	case p > 1<<20:
+		return "over-1MiB"
+	case p == 1<<20:
+		return "max-1MiB"
+	case p%4096 != 0:
+		return "not-4K-multiple"
+	case (1<<20)%p != 0:
+		return "4K-multiple-not-dividing-1MiB"
+	}
+	return "divides-1MiB"
+}
+
+// wouldReject names the upload.getFile rule a request breaks (precise flag set:
+// offset and limit divisible by 1 KiB, limit <= 1 MiB; the rule that a request
+// must stay inside one 1 MiB chunk is listed for non-precise requests and is
+// reported separately because it is not certain that precise lifts it).
+func wouldReject(offset int64, limit int) string {
+	switch {
+	case limit > 1<<20:
+		return "limit-above-1MiB"
+	case limit%1024 != 0:
+		return "limit-not-1KiB-multiple"
+	case offset%1024 != 0:
+		return "offset-not-1KiB-multiple"
+	case limit > 0 && offset/(1<<20) != (offset+int64(limit)-1)/(1<<20):
+		return "crosses-1MiB-chunk"
+	}
+	return ""
+}
 
 func genC33Case(c *mon.Ctx, i int) c33Case {
 	r := c.RandN("c33", i)
 	cs := c33Case{Index: i}
-	cs.Part = c33Parts[r.IntN(len(c33Parts))]
+	switch pc := r.IntN(20); {
+	case pc < 10:
+		cs.Part = c33PartsDiv[r.IntN(len(c33PartsDiv))]
+	case pc < 16:
+		cs.Part = c33PartsNonDiv[r.IntN(len(c33PartsNonDiv))]
+	case pc < 17:
+		cs.Part = 1 << 20
+	case pc < 19:
+		cs.Part = c33PartsOdd[r.IntN(len(c33PartsOdd))]
+	default:
+		cs.Part = c33PartsOver[r.IntN(len(c33PartsOver))]
+	}
+	cs.PartClass = partClass(cs.Part)
 	cs.Threads = 1 + r.IntN(8)
 	if r.IntN(3) == 0 {
 		cs.Mode = "stream"
@@ -192,7 +256,26 @@ func genC33Case(c *mon.Ctx, i int) c33Case {
 		k = 2 + r.IntN(maxK-1)
 	}
 	P := cs.Part
-	switch cls := r.IntN(14); cls {
+	cls := r.IntN(17)
+	if cls < 14 && cs.PartClass != "divides-1MiB" && r.IntN(3) == 0 {
+		cls = 14 // parts that do not divide 1 MiB straddle MiB boundaries: go there more often
+	}
+	switch cls {
+	case 14, 15, 16:
+		// beyond 1, 2, 3 MiB: some part straddles a multiple of 1 MiB with data behind it
+		m := 1 + r.IntN(3)
+		if P < 4096 {
+			m = 1 // keep the number of requests moderate
+		}
+		switch r.IntN(4) {
+		case 0:
+			cs.Size = m<<20 + 1
+		case 1:
+			cs.Size = m<<20 + P + r.IntN(P)
+		default:
+			cs.Size = m<<20 + 1 + r.IntN(2*P)
+		}
+		cs.SizeClass = fmt.Sprintf(">%dMiB", m)
 	case 0:
 		cs.Size, cs.SizeClass = 0, "0"
 	case 1:
@@ -301,11 +384,12 @@ func threadBucket(t int) string {
 
 func runC33(c *mon.Ctx) {
 	c.Rule("each case = one download of a simulated file (bytes are a function of seed and offset) through the public Builder API against a harness master DC; " +
-		"part size from {4K..1M incl. 12K,20K,100K}, threads 1..8, Stream or Parallel, arms default / WithAllowCDN(false) / AllowCDN without provider / AllowCDN with provider but no redirect; " +
-		"file size classes 0,1,P-1,P,P+1,kP,kP±1,threads*P,random (quick: up to 1 MiB resp. 3 parts for parts >= 256K; thorough: a quarter up to 8 MiB); scripted retryable faults per request offset (rpc Timeout, context.DeadlineExceeded, net timeout, bursts of up to 7, " +
+		"part size from every class WithPartSize accepts (it validates nothing): divisors of 1 MiB 4K..512K, 4 KiB multiples not dividing 1 MiB (12K,20K,36K,100K,160K,384K,768K,1020K), the maximum 1 MiB, non-4K values (1000,5120,7777,333333), above the maximum (1.5M,2M); threads 1..8, Stream or Parallel, arms default / WithAllowCDN(false) / AllowCDN without provider / AllowCDN with provider but no redirect; " +
+		"file size classes 0,1,P-1,P,P+1,kP,kP±1,threads*P,random, and just beyond 1/2/3 MiB so that parts straddle MiB multiples with data behind them (quick: up to 1 MiB resp. 3 parts for parts >= 256K; thorough: a quarter up to 8 MiB); scripted retryable faults per request offset (rpc Timeout, context.DeadlineExceeded, net timeout, bursts of up to 7, " +
 		"FLOOD_WAIT_0 / FLOOD_PREMIUM_WAIT_0 in ~12% of cases) incl. on the requests at/after EOF; random per-request delays only shuffle thread completion order. " +
 		"Oracle: download returns nil; WriterAt writes tile [0,size) exactly (no gap, no duplicate, nothing past EOF) with the file's bytes / Writer stream equals the file; returned type equals the served type; no write after return. " +
-		"distinct non-trivial = (mode, arm, size class, thread bucket, fault class) of a completed download")
+		"Requests a real DC would answer with LIMIT_INVALID (limit > 1 MiB, not a 1 KiB multiple, crossing a 1 MiB chunk) are served anyway and counted as observation|... keys, never as a verdict. " +
+		"distinct non-trivial = (mode, arm, part class, size class, thread bucket, fault class) of a completed download")
 	c.Assume("the harness master DC honours offset/limit exactly and returns short/empty data at EOF (upload.getFile with precise flag); flood waits use the real clock (downloader gives tgerr.FloodWait no clock), so only FLOOD_WAIT_0 is injected")
 	n := devN(c.N(600, 40000))
 	workers := 12
@@ -449,6 +533,16 @@ func runC33Case(c *mon.Ctx, cs *c33Case, sc *scratch) *plainServer {
 		return srv
 	}
 	srv.mu.Lock()
+	for why, n := range srv.reject {
+		// observation, not a verdict: the API accepted this part size, the harness
+		// DC served the request, the content was right; a real DC would refuse it
+		c.Add("observation|server-would-answer-LIMIT_INVALID|"+why+"|requests", int64(n))
+		c.Add("observation|server-would-answer-LIMIT_INVALID|"+why+"|downloads", 1)
+		c.Add("observation|server-would-answer-LIMIT_INVALID|part-class:"+cs.PartClass+"|downloads", 1)
+	}
+	if len(srv.rejectFirst) > 0 {
+		c.Sample("observation-LIMIT_INVALID/"+cs.PartClass, map[string]any{"case": cs, "first_offending_requests": srv.rejectFirst})
+	}
 	if srv.oddShape != "" {
 		c.Add("unexpected_request_shape", 1)
 		c.Sample("odd-request", map[string]any{"case": cs, "request": srv.oddShape})
@@ -465,7 +559,7 @@ func runC33Case(c *mon.Ctx, cs *c33Case, sc *scratch) *plainServer {
 		// faults scripted on offsets that were never requested (threads stopped earlier)
 		c.Add("faults_not_reached", int64(left))
 	}
-	c.Distinct(strings.Join([]string{cs.Mode, cs.Arm, cs.SizeClass, threadBucket(cs.Threads), cs.faultClass()}, "/"))
+	c.Distinct(strings.Join([]string{cs.Mode, cs.Arm, cs.PartClass, cs.SizeClass, threadBucket(cs.Threads), cs.faultClass()}, "/"))
 	c.Sample(cs.Mode+"/"+cs.faultClass(), cs)
 	return srv
 }
